@@ -54,14 +54,14 @@ var (
 )
 
 type c16Cfg struct {
-	ProcEnv        map[string]string // what the emulator process itself has in its environment for the documented key lists
-	Customer       map[string]string
-	Handler        string
-	BuilderHandler string
-	FuncName       string
-	FuncVer        string
+	ProcEnv              map[string]string // what the emulator process itself has in its environment for the documented key lists
+	Customer             map[string]string
+	Handler              string
+	BuilderHandler       string
+	FuncName             string
+	FuncVer              string
 	Key, Secret, Session string
-	Snapshot       bool
+	Snapshot             bool
 }
 
 func hostileValue(r *rand.Rand) string {
